@@ -7,40 +7,49 @@
 #include "../harness/tldutil.hpp"
 
 using namespace vf;
-extern "C" const vapi dflt_api;
-static const vapi *A = &dflt_api;
+extern "C" const vapi dflt_api, o001_api;
+// two builds: the default one and LABELS_ALLOW_UNDERSCORE=ON (where '_' is a label character, so that
+// 'test_1' is a valid, non-reserved last label)
+static const vapi *VA[2] = {&dflt_api, &o001_api};
 static TailBuf TB(4096);
 static const Bytes *g_bytes;
-static Obj *OBJ[4];
+static Obj *OBJ[2][4];
 static Consts *C;
 enum { SPECIAL = 7 };
 
 static Case mkcase(const Bytes &d) { Case c; c.b("domain", d); return c; }
 
-static std::optional<Failure> check_one(Run &R, const Bytes &d) {
-    g_bytes = &d;
+static std::optional<Failure> check_build(Run &R, const Bytes &d, int v) {
+    const vapi *A = VA[v];
     // quantifier: valid host-name domains without root dot
-    if (!ref::host_ok(d) || d.back() == '.') { R.count("skipped-not-a-valid-host"); return std::nullopt; }
+    if (!ref::host_ok(d, v == 1) || d.back() == '.') { R.count("skipped-not-a-valid-host"); return std::nullopt; }
     bool want = ref::reserved(d);
-    R.nontrivial(hashs(d));
+    R.nontrivial(hashs(d, v));
     R.count(want ? "reserved" : "not-reserved");
     if (want) R.sample("reserved", show(d), 4); else R.sample("neighbour", show(d), 6);
+    std::string bn = v ? "[LABELS_ALLOW_UNDERSCORE build] " : "";
     int sp = part0(A, TB, VP_SPECIAL, d); R.eval();
     std::vector<Bytes> labs = ref::split_labels(d);
     std::string shape = labs.size() >= 2 && labs[labs.size() - 2].size() == 7 ? "second-to-last-label-has-7-chars" : "reserved-misjudged";
     if ((sp != 0) != want)
-        return Failure{shape, mkcase(d).str(), "is_special_domain('" + show(d) + "') = " + std::to_string(sp) + ", reference says " + (want ? "reserved" : "not reserved")};
+        return Failure{shape, mkcase(d).str(), bn + "is_special_domain('" + show(d) + "') = " + std::to_string(sp) + ", reference says " + (want ? "reserved" : "not reserved")};
     Bytes addr = "x@" + d;
     for (int m = 0; m < 4; m++) {
         v_outcome o = email_direct(A, TB, m, addr, 1); R.eval();
         if (m == 3 && o.rc == -C->E_IDN) { R.count("6531-idn-error-skipped"); continue; }
         if ((o.rc == C->tld_type[SPECIAL]) != want)
-            return Failure{shape, mkcase(d).str(), std::string("is_") + ref::MODE_NAME[m] + "_email('x@" + show(d) + "', tld on)->rc = " + std::to_string(o.rc) + ", reference says " + (want ? "special" : "not special")};
-        v_outcome e = OBJ[m]->is_email_tail(TB, addr); R.eval();
+            return Failure{shape, mkcase(d).str(), bn + std::string("is_") + ref::MODE_NAME[m] + "_email('x@" + show(d) + "', tld on)->rc = " + std::to_string(o.rc) + ", reference says " + (want ? "special" : "not special")};
+        v_outcome e = OBJ[v][m]->is_email_tail(TB, addr); R.eval();
         bool got = e.ret == 0 && e.errcode == C->eeav_tld[SPECIAL];
         if (got != want)
-            return Failure{shape, mkcase(d).str(), std::string("eav_is_email mode ") + ref::MODE_NAME[m] + " with only the SPECIAL bit cleared on 'x@" + show(d) + "': " + outcome_str(e) + ", reference says " + (want ? "special" : "not special")};
+            return Failure{shape, mkcase(d).str(), bn + std::string("eav_is_email mode ") + ref::MODE_NAME[m] + " with only the SPECIAL bit cleared on 'x@" + show(d) + "': " + outcome_str(e) + ", reference says " + (want ? "special" : "not special")};
     }
+    return std::nullopt;
+}
+static std::optional<Failure> check_one(Run &R, const Bytes &d) {
+    g_bytes = &d;
+    if (auto f = check_build(R, d, 0)) return f;
+    if (d.find('_') != Bytes::npos || (hashs(d) & 7) == 0) return check_build(R, d, 1);   // the option build: all underscore cases + a sample of the rest
     return std::nullopt;
 }
 static bool run_one(Run &R, const Bytes &b) { auto f = check_one(R, b); return !(f && !R.fail(*f)); }
@@ -49,10 +58,10 @@ static std::vector<Bytes> suffixes_and_neighbours() {
     std::vector<Bytes> out;
     for (const char *r : gen::RESERVED) {
         Bytes s = r; out.push_back(s);
-        static const char INS[] = {'a', 'x', 's', 'e', 't', '1', '-', '.'};
+        static const char INS[] = {'a', 'x', 's', 'e', 't', '1', '-', '.', '_'};
         for (size_t i = 0; i <= s.size(); i++) for (char c : INS) { Bytes t = s; t.insert(t.begin() + i, c); out.push_back(t); }
         for (size_t i = 0; i < s.size(); i++) { Bytes t = s; t.erase(t.begin() + i); if (!t.empty()) out.push_back(t); }
-        for (size_t i = 0; i < s.size(); i++) for (char c : {'a', 'x', 'z', '0'}) { Bytes t = s; if (t[i] == '.') continue; t[i] = c; out.push_back(t); }
+        for (size_t i = 0; i < s.size(); i++) for (char c : {'a', 'x', 'z', '0', '_'}) { Bytes t = s; if (t[i] == '.') continue; t[i] = c; out.push_back(t); }
     }
     for (const char *x : {"exampleA", "xexample.com", "example.comm", "example.co", "foo.tests", "locahost", "example.edu", "example.com.au", "test.com", "example.example", "com.example",
                           "example.test", "invalid.test", "example.onion", "example.localhost", "example.invalid", "mailbox.localhost", "examples.com", "example.org.uk", "onion.com", "tests", "local", "host"})
@@ -113,13 +122,13 @@ int main(int argc, char **argv) {
         [](Run &R, const Case &c) { return check_one(R, c.getb("domain")); },
         [] { return g_bytes ? mkcase(*g_bytes).str() : std::string(); },
         [](Run &) {
-            C = new Consts(A);
-            for (int m = 0; m < 4; m++) { OBJ[m] = new Obj(A); if (OBJ[m]->configure(m, 1, C->all_bits() & ~C->bit[SPECIAL]) != 0) return false; }
+            C = new Consts(VA[0]);
+            for (int v = 0; v < 2; v++) for (int m = 0; m < 4; m++) { OBJ[v][m] = new Obj(VA[v]); if (OBJ[v][m]->configure(m, 1, C->all_bits() & ~C->bit[SPECIAL]) != 0) return false; }
             return true;
         },
-        [] { for (int m = 0; m < 4; m++) delete OBJ[m]; delete C; });
+        [] { for (int v = 0; v < 2; v++) for (int m = 0; m < 4; m++) delete OBJ[v][m]; delete C; });
 }
 #else
-VF_FUZZ_TARGET("C09", [](Run &R) { C = new Consts(A); for (int m = 0; m < 4; m++) { OBJ[m] = new Obj(A); if (OBJ[m]->configure(m, 1, C->all_bits() & ~C->bit[SPECIAL]) != 0) return false; } (void) R; return true; },
+VF_FUZZ_TARGET("C09", [](Run &R) { C = new Consts(VA[0]); for (int v = 0; v < 2; v++) for (int m = 0; m < 4; m++) { OBJ[v][m] = new Obj(VA[v]); if (OBJ[v][m]->configure(m, 1, C->all_bits() & ~C->bit[SPECIAL]) != 0) return false; } (void) R; return true; },
     [](Run &R, const uint8_t *d, size_t n) -> std::optional<Failure> { Bytes x = fuzz_bytes(d, n); if (x.empty()) return std::nullopt; R.sample("fuzz", show(x.substr(0, 80)), 4); return check_one(R, x); })
 #endif
